@@ -397,12 +397,15 @@ seqs:
 	res.Bounds["token_sequence_length"] = tokLen
 	res.Bounds["token_alphabet"] = len(c10Tokens)
 	res.Bounds["token_contexts"] = fmt.Sprintf("%d for sequences of up to 2 tokens, the first three up to the bound - 1, route body only at the bound", len(c10TokCtxs))
-	var trec func(seq []string) bool
-	trec = func(seq []string) bool {
-		if len(seq) > 1 || (len(seq) == 1 && p.Shard == 0) { // length-1 sequences once
+	// two passes, shortest first (so that a run cut short by its time budget has at least offered every short
+	// sequence in every context): pass 1 = sequences shorter than the bound, pass 2 = sequences at the bound
+	var trec func(seq []string, pass int) bool
+	trec = func(seq []string, pass int) bool {
+		atBound := len(seq) == tokLen
+		if (pass == 1 && !atBound || pass == 2 && atBound) && (len(seq) > 1 || (len(seq) == 1 && p.Shard == 0)) { // length-1 sequences once
 			body := strings.Join(seq, " ")
 			for ci, cx := range c10TokCtxs {
-				if (len(seq) == tokLen && ci != 1) || (len(seq) > 2 && ci > 2) {
+				if (atBound && ci != 1) || (len(seq) > 2 && ci > 2) {
 					continue // the longest sequences only in the route-body context; sub-parser contexts up to 2 tokens
 				}
 				if !submit(&c10Msg{typ: 'S', data: []byte(cx.Pre + body + cx.Post), steps: 5, label: fmt.Sprintf("token sequence %q (%s)", seq, cx.Name)}) {
@@ -411,20 +414,22 @@ seqs:
 				res.Distinct++
 			}
 		}
-		if len(seq) == tokLen {
+		if atBound || (pass == 1 && len(seq) == tokLen-1) {
 			return true
 		}
 		for _, tk := range c10Tokens {
 			if len(seq) == 1 && !mine() {
 				continue
 			}
-			if !trec(append(append([]string{}, seq...), tk)) {
+			if !trec(append(append([]string{}, seq...), tk), pass) {
 				return false
 			}
 		}
 		return true
 	}
-	trec(nil)
+	if trec(nil, 1) {
+		trec(nil, 2)
+	}
 
 	sup.Drain()
 	sup.stop()
